@@ -74,11 +74,11 @@ DerivedStatus(T, tids) ==
 
 ChangeStatus(C, T, c) == IF C[c].status # "Default" THEN C[c].status ELSE DerivedStatus(T, C[c].tasks)
 
-\* Graph sanity the drivers keep (and the model requires): edges point to existing tasks, and no Do task
+\* Graph sanity the drivers keep (and the model requires): edges of linked tasks point to existing tasks, no Do task
 \* waits for an Undo task (else Change.Status() itself appends "detected cyclic dependencies" log lines).
 Sane(T) == \A u \in DOMAIN T :
-    /\ Range(T[u].waits) \cup Range(T[u].halts) \subseteq DOMAIN T
-    /\ Eff(T[u].status) = "Do" => \A v \in Range(T[u].waits) : T[v].status # "Undo"
+    /\ T[u].change # 0 => Range(T[u].waits) \cup Range(T[u].halts) \subseteq DOMAIN T
+    /\ Eff(T[u].status) = "Do" => \A v \in Range(T[u].waits) \cap DOMAIN T : T[v].status # "Undo"
 
 -----------------------------------------------------------------------------
 (* Notices.  Key <<user, type, key>> (user -1 = public).                                         *)
@@ -178,6 +178,7 @@ NewTask(kind, summary) ==
 
 AddTask(c, t) ==
     /\ c \in DOMAIN changes /\ t \in DOMAIN tasks /\ tasks[t].change = 0
+    /\ Range(tasks[t].waits) \cup Range(tasks[t].halts) \subseteq DOMAIN tasks   \* no edge to a pruned task
     /\ tasks' = [tasks EXCEPT ![t].change = c]
     /\ changes' = [changes EXCEPT ![c].tasks = AddOnce(@, t)]
     /\ UNCHANGED <<notices, warnings, kv, lastChange, lastTask, lastLane, lastNotice, lastNoticeTs, clk, registered, issued>>
@@ -370,8 +371,9 @@ PrunePost(start, pw, aw, mx, X, U) ==
 
 \* dangling edges make the abort walk (and Change.Status) dereference removed tasks: the drivers never
 \* prune in such a state (snapd adds whole task sets to a change)
-EdgesClosed == \A t \in DOMAIN tasks : \A u \in Range(tasks[t].waits) \cup Range(tasks[t].halts) :
-                   tasks[u].change = tasks[t].change
+EdgesClosed == \A t \in DOMAIN tasks : tasks[t].change # 0 =>
+                   \A u \in Range(tasks[t].waits) \cup Range(tasks[t].halts) :
+                       u \in DOMAIN tasks /\ tasks[u].change = tasks[t].change
 
 Prune(start, pw, aw, mx, X, U) ==
     /\ EdgesClosed
